@@ -29,28 +29,40 @@ pub const TERMINAL_ROOTS: &[(&str, &str)] = &[("7k/6Q1/6K1/8/8/8/8/8 b - - 0 1",
 
 pub fn models(quick: bool) -> Vec<Model> {
     let mut v = Vec::new();
-    let b = if quick { 2 } else { 3 };
     for (i, (fen, _)) in ROOTS.iter().enumerate() {
-        let kmax = if i == 0 { 40 } else if quick { 20 } else { 30 };
+        // every expiry index up to kmax at preemption bound 2
+        let kmax = if quick { 40 } else { 60 };
         for k in 0..=kmax {
-            v.push(Model { fen, ks: vec![k], bound: Some(b), gos: 1 });
+            v.push(Model { fen, ks: vec![k], bound: Some(2), gos: 1 });
+        }
+        // preemption bound 3 on a shorter range
+        let k3 = if quick { if i == 0 { 12 } else { 6 } } else { 30 };
+        for k in 0..=k3 {
+            v.push(Model { fen, ks: vec![k], bound: Some(3), gos: 1 });
         }
         // unbounded preemptions for small expiry indices
-        for k in 0..=(if quick { 4 } else { 8 }) {
+        for k in 0..=(if quick { 5 } else { 8 }) {
             v.push(Model { fen, ks: vec![k], bound: None, gos: 1 });
         }
     }
     for (fen, _) in TERMINAL_ROOTS {
         for k in [0usize, 1, 5, 20] {
-            v.push(Model { fen, ks: vec![k], bound: Some(b), gos: 1 });
+            v.push(Model { fen, ks: vec![k], bound: Some(3), gos: 1 });
         }
+        v.push(Model { fen, ks: vec![3, 3], bound: Some(2), gos: 2 });
     }
     // two consecutive go commands: the first search thread may still be running
-    for (fen, _) in &ROOTS[..if quick { 2 } else { 4 }] {
-        for k1 in [0usize, 3, 9, 12] {
-            for k2 in [0usize, 2, 7] {
+    for (fen, _) in &ROOTS[..if quick { 3 } else { 5 }] {
+        for k1 in [0usize, 3, 7, 9, 12] {
+            for k2 in [0usize, 2, 7, 11] {
                 v.push(Model { fen, ks: vec![k1, k2], bound: Some(2), gos: 2 });
             }
+        }
+    }
+    if !quick {
+        // three consecutive go commands on the smallest root
+        for k in [0usize, 4, 9] {
+            v.push(Model { fen: ROOTS[0].0, ks: vec![k, k, k], bound: Some(2), gos: 3 });
         }
     }
     v
